@@ -10,6 +10,9 @@ package control
 // controlPlaneCore.RetrieveRoutingResult (conn_state first, needs HasRouting; then the handoff entry
 // unless routingHandoffExpired) through the real routingResultFromConnState / routingHandoffExpired.
 // (The real RetrieveRoutingResult needs live *ebpf.Map objects, which this sandbox cannot create.)
+// Health bits: the slot of outbound_connectivity_map written for (outbound, network type) is computed by the
+// real outboundConnectivityMapKey; the C driver stores the value there and the hooks read it back through
+// wan_outbound_is_alive.
 
 import (
 	"encoding/hex"
@@ -18,6 +21,9 @@ import (
 	"net/netip"
 	"testing"
 	"unsafe"
+
+	"github.com/daeuniverse/dae/common/consts"
+	"github.com/daeuniverse/dae/component/outbound/dialer"
 )
 
 type c03Flow struct {
@@ -30,6 +36,9 @@ type c03Flow struct {
 
 type c03In struct {
 	Layout bool        `json:"layout"`
+	// Slots: (outbound, domain 0 tcp / 1 dns-udp / 2 data-udp, ip index 0 v4 / 1 v6) -> the slot of
+	// outbound_connectivity_map the control plane writes, by the real outboundConnectivityMapKey.
+	Slots [][3]int `json:"slots"`
 	Conn   [][2]string `json:"conn"`
 	Hand   [][2]string `json:"hand"`
 	Flows  []c03Flow   `json:"flows"`
@@ -87,6 +96,26 @@ func TestVerifC03(t *testing.T) {
 		var in c03In
 		if err := json.Unmarshal(line, &in); err != nil {
 			return map[string]any{"error": err.Error()}
+		}
+		if in.Slots != nil {
+			keys := make([]uint32, 0, len(in.Slots))
+			for _, q := range in.Slots {
+				nt := &dialer.NetworkType{L4Proto: consts.L4ProtoStr_TCP, IpVersion: consts.IpVersionStr_4}
+				if q[2] == 1 {
+					nt.IpVersion = consts.IpVersionStr_6
+				}
+				switch q[1] {
+				case 1:
+					nt.L4Proto = consts.L4ProtoStr_UDP
+					nt.UdpHealthDomain = dialer.UdpHealthDomainDns
+					nt.IsDns = true
+				case 2:
+					nt.L4Proto = consts.L4ProtoStr_UDP
+					nt.UdpHealthDomain = dialer.UdpHealthDomainData
+				}
+				keys = append(keys, outboundConnectivityMapKey(uint8(q[0]), nt))
+			}
+			return map[string]any{"slots": keys}
 		}
 		if in.Layout {
 			var cs bpfConnState
